@@ -632,3 +632,87 @@ pub fn component_repetition(rng: &mut Rng) -> String {
     }
     s
 }
+
+/// Alternations (and repetitions of them) all of whose branches are invariant text, related by a
+/// small perturbation of one base text: a separator moved, two characters swapped, one changed
+/// in case, dropped or doubled, a run written as a repetition. Whether such an expression has
+/// invariant text depends on the branches being *equal*, not merely similar.
+pub fn invariant_variants(rng: &mut Rng) -> String {
+    const BASES: &[&str] = &["ab/c", "a/bc", "x/yz/w", "abc", "a/b", "src/lib", "a.b/c", "金a/b", "aa/a", "ab/", "a/b/c", "Ab/c"];
+    fn perturb(rng: &mut Rng, t: &str) -> String {
+        let mut cs: Vec<char> = t.chars().collect();
+        match rng.below(7) {
+            0 => {
+                // Move a separator by one position.
+                if let Some(i) = cs.iter().position(|c| *c == '/') {
+                    if i + 1 < cs.len() && cs[i + 1] != '/' && rng.chance(1, 2) {
+                        cs.swap(i, i + 1);
+                    }
+                    else if i > 1 && cs[i - 1] != '/' {
+                        cs.swap(i, i - 1);
+                    }
+                }
+            },
+            1 => {
+                // Swap two neighbouring characters that are not separators.
+                let idx: Vec<usize> = (0..cs.len().saturating_sub(1)).filter(|i| cs[*i] != '/' && cs[*i + 1] != '/').collect();
+                if !idx.is_empty() {
+                    let i = idx[rng.below(idx.len())];
+                    cs.swap(i, i + 1);
+                }
+            },
+            2 => {
+                let idx: Vec<usize> = (0..cs.len()).filter(|i| cs[*i].is_ascii_alphabetic()).collect();
+                if !idx.is_empty() {
+                    let i = idx[rng.below(idx.len())];
+                    cs[i] = if cs[i].is_ascii_lowercase() { cs[i].to_ascii_uppercase() } else { cs[i].to_ascii_lowercase() };
+                }
+            },
+            3 => {
+                let idx: Vec<usize> = (0..cs.len()).filter(|i| cs[*i] != '/').collect();
+                if idx.len() > 1 {
+                    cs.remove(idx[rng.below(idx.len())]);
+                }
+            },
+            4 => {
+                let idx: Vec<usize> = (0..cs.len()).filter(|i| cs[*i] != '/').collect();
+                if !idx.is_empty() {
+                    let i = idx[rng.below(idx.len())];
+                    let c = cs[i];
+                    cs.insert(i, c);
+                }
+            },
+            5 => {
+                // The same text with one character written as a once-or-twice repetition.
+                let idx: Vec<usize> = (0..cs.len()).filter(|i| cs[*i].is_ascii_alphanumeric()).collect();
+                if !idx.is_empty() {
+                    let i = idx[rng.below(idx.len())];
+                    let head: String = cs[..i].iter().collect();
+                    let tail: String = cs[i + 1..].iter().collect();
+                    return format!("{}<{}:{}>{}", head, cs[i], rng.range(1, 2), tail);
+                }
+            },
+            _ => {},
+        }
+        cs.into_iter().collect()
+    }
+    let base = rng.pick_str(BASES).to_string();
+    let mut branches = vec![base.clone()];
+    for _ in 0..rng.range(1, 3) {
+        let from = branches[rng.below(branches.len())].clone();
+        let from = if from.contains('<') { base.clone() } else { from };
+        branches.push(perturb(rng, &from));
+    }
+    if rng.chance(1, 3) {
+        rng.shuffle(&mut branches);
+    }
+    let alt = format!("{{{}}}", branches.join(","));
+    match rng.below(8) {
+        0 => format!("x/{}", alt),
+        1 => format!("{}/y", alt.replace("/}", "}").replace("/,", ",")),
+        2 => format!("<{}/:2>", alt.replace("/}", "}").replace("/,", ",")),
+        3 => format!("{{{},z}}", alt),
+        4 => format!("(?i){}", alt),
+        _ => alt,
+    }
+}
